@@ -35,9 +35,12 @@ import DracoProofs.SpecCheck
       ≤ 255 components, unique id < 2^32, fewer than 2^32 attributes,
     * explicitly configured quantization parameters are float32 bit patterns,
     * metadata is well formed (`GeometryMetadata.WF'`, C11),
-    * for normals coded by the normal encoder: the float oracle hypothesis `octaRowOK`
-      (|first rounded octahedral coordinate| ≤ center value) — evaluated on every correspondence
-      case by the driver op; not provable in Lean where `Float` operations are opaque.
+    * for normals coded by the normal encoder: `octaEntryOK` — the octahedral coordinates the float code
+      computed are canonical points of the grid; implied by the float oracle hypothesis `octaRowOK`
+      (|first rounded octahedral coordinate| ≤ center value, `octaEntryOK_of_rowOK`), which in turn
+      holds for every float evaluation obeying the standard rounding model (`octa_round_in_range`,
+      section 8) — evaluated on every correspondence case by the driver op; not provable for the
+      concrete `Float` instance in Lean, whose operations are opaque.
   NOT hypotheses: anything about the values of integer attributes (uint32 values above INT32_MAX make
   the encoder FAIL, `encodeGeometry = none`), value ranges (ranges ≥ 2^31-1 switch the prediction
   off), prediction scheme options, speeds, quantization bit counts (invalid ones make the encoder fail).
